@@ -65,10 +65,42 @@ def prelude():
             plt.close(fig)
         except Exception:
             pass
+        # a sample file written, extended and read back under a throw-away name
+        import shutil
+        import tempfile
+
+        tmp = tempfile.mkdtemp(prefix="verif-prelude-")
+        try:
+            fn = os.path.join(tmp, "prelude.hdf5")
+            s.write(fn)
+            s.write(fn, append=True)
+            tj.JokerSamples.read(fn)
+            from thejoker.utils import read_batch
+
+            read_batch(fn, ["P", "e", "omega", "M0", "s"], slice(0, 3), units={"P": u.hour})
+            # a complete small run of the sampler with another prior (period prior in hours, two surveys, quadratic trend)
+            import pymc as pm
+            import thejoker.units as xu
+
+            with pm.Model():
+                pr = tj.JokerPrior.default(P_min=30 * u.hour, P_max=3000 * u.hour, sigma_K0=20 * u.km / u.s,
+                                           sigma_v=[50 * u.km / u.s, 1 * u.km / u.s / u.day], poly_trend=2,
+                                           v0_offsets=[xu.with_unit(pm.Normal("dv0_1", 0, 4.0), u.km / u.s)])
+            ps = pr.sample(size=16, rng=np.random.default_rng(5), return_logprobs=True)
+            d2 = tj.RVData(Time(56003.0 + np.array([0.5, 9.0, 4.0]), format="mjd", scale="tcb"), [0.5, 1.5, -1.0] * u.km / u.s, [0.5, 0.5, 0.6] * u.km / u.s)
+            jk = tj.TheJoker(pr, rng=np.random.default_rng(6), tempfile_path=tmp)
+            jk.marginal_ln_likelihood({"b": d, "a": d2}, ps)
+            jk.rejection_sample([d, d2], ps, return_logprobs=True)
+            jk.iterative_rejection_sample([d, d2], ps, n_requested_samples=2, init_batch_size=4)
+        finally:
+            shutil.rmtree(tmp, ignore_errors=True)
         from thejoker.utils import batch_tasks
 
         batch_tasks(10, 3, start_idx=5)
         batch_tasks(10, 3, arr=np.arange(20), start_idx=5)
     except Exception:
         # the prelude itself must never decide anything
-        pass
+        if os.environ.get("VERIF_PRELUDE_DEBUG"):
+            import traceback
+
+            traceback.print_exc()
